@@ -547,9 +547,65 @@ func modeKind(mode string) string {
 	return "literal"
 }
 
+// ---- the long class --------------------------------------------------------------------------------------
+//
+// A low share of the cases masks alignments of 1000-2600 columns (around 1024 and 2048 too). They are stored
+// compactly: the short generated alignment is tiled to the asked number of columns, then a few cells are edited.
+
+type edit struct {
+	Row int  `json:"r"`
+	Col int  `json:"c"`
+	Ch  byte `json:"ch"`
+}
+
+type longSpec struct {
+	Cols  int    `json:"cols,omitempty"`
+	Edits []edit `json:"edits,omitempty"`
+}
+
+func genLong(t *rapid.T, a gen.Ali, rate int) longSpec {
+	var l longSpec
+	if uni(t, rate, "long") != 0 {
+		return l
+	}
+	l.Cols = []int{1000, 1023, 1024, 1025, 1030, 1500, 2047, 2048, 2049, 2100, 2600}[uni(t, 11, "longcols")]
+	if uni(t, 3, "anycols") == 0 {
+		l.Cols = rapid.IntRange(1000, 2600).Draw(t, "cols")
+	}
+	chars := a.Rows[0].Seq + "-"
+	for k := rapid.IntRange(0, 8).Draw(t, "nedits"); k > 0; k-- {
+		l.Edits = append(l.Edits, edit{Row: uni(t, len(a.Rows), "er"), Col: rapid.IntRange(0, l.Cols-1).Draw(t, "ec"), Ch: chars[uni(t, len(chars), "ech")]})
+	}
+	return l
+}
+
+// expand builds the long alignment of the case
+func expand(a gen.Ali, l longSpec) gen.Ali {
+	if l.Cols <= 0 {
+		return a
+	}
+	out := gen.Ali{Alphabet: a.Alphabet}
+	for _, r := range a.Rows {
+		b := make([]byte, l.Cols)
+		for i := range b {
+			b[i] = r.Seq[i%len(r.Seq)]
+		}
+		out.Rows = append(out.Rows, gen.Row{Name: r.Name, Seq: string(b)})
+	}
+	for _, e := range l.Edits {
+		if e.Row >= 0 && e.Row < len(out.Rows) && e.Col >= 0 && e.Col < l.Cols {
+			b := []byte(out.Rows[e.Row].Seq)
+			b[e.Col] = e.Ch
+			out.Rows[e.Row].Seq = string(b)
+		}
+	}
+	return out
+}
+
 // ---- Mask ---------------------------------------------------------------------------------------------
 
 type maskCase struct {
+	Long    longSpec `json:"long"`
 	Plan    gen.Plan `json:"plan"`
 	Ali     gen.Ali  `json:"ali"`
 	Ref     string   `json:"ref"`
@@ -564,15 +620,22 @@ func genMask(t *rapid.T) maskCase {
 	var c maskCase
 	c.Ali = genAli(t, 6, 15)
 	c.Ref = genRef(t, c.Ali)
-	c.Start, c.Len = genMaskWindow(t, aliLen(c.Ali))
+	c.Long = genLong(t, c.Ali, 80)
+	c.Start, c.Len = genMaskWindow(t, aliLen(expand(c.Ali, c.Long)))
 	c.Replace = genMode(t)
 	c.NoGap = rapid.Bool().Draw(t, "nogap")
 	c.NoRef = rapid.Bool().Draw(t, "noref")
-	c.Plan = genPlan(t, c.Ali)
+	if c.Long.Cols == 0 {
+		c.Plan = genPlan(t, c.Ali)
+	}
 	return c
 }
 
 func checkMask(c maskCase) (o pbt.Outcome, err error) {
+	if c.Long.Cols > 0 {
+		c.Ali = expand(c.Ali, c.Long)
+		o.Class("mask long alignment (%d00+ columns)", c.Long.Cols/100)
+	}
 	rows, l := c.Ali.Rows, aliLen(c.Ali)
 	al := build(&o, c.Ali, c.Plan)
 	lengthBefore := al.Length()
@@ -617,6 +680,7 @@ func TestMask(t *testing.T) { pbt.Run(t, genMask, checkMask) }
 // ---- MaskOccurences / MaskUnique --------------------------------------------------------------------------
 
 type occCase struct {
+	Long    longSpec `json:"long"`
 	Plan    gen.Plan `json:"plan"`
 	Ali     gen.Ali  `json:"ali"`
 	Ref     string   `json:"ref"`
@@ -639,11 +703,18 @@ func genOcc(t *rapid.T) occCase {
 	if c.Unique {
 		c.K = 1
 	}
-	c.Plan = genPlan(t, c.Ali)
+	c.Long = genLong(t, c.Ali, 80)
+	if c.Long.Cols == 0 {
+		c.Plan = genPlan(t, c.Ali)
+	}
 	return c
 }
 
 func checkOcc(c occCase) (o pbt.Outcome, err error) {
+	if c.Long.Cols > 0 {
+		c.Ali = expand(c.Ali, c.Long)
+		o.Class("occ long alignment (%d00+ columns)", c.Long.Cols/100)
+	}
 	rows := c.Ali.Rows
 	al := build(&o, c.Ali, c.Plan)
 	lengthBefore := al.Length()
